@@ -102,6 +102,10 @@ func SelectOrder(site string, n int) []int {
 func ReflectSelect(cases []reflect.SelectCase) (int, reflect.Value, bool) {
 	t := Pre("reflect.Select")
 	n := len(cases)
+	if n > 65536 {
+		// the poll path below never reaches the real reflect.Select, which refuses this
+		panic("reflect.Select: too many cases (max 65536)")
+	}
 	if n > 0 {
 		for _, i := range SelectOrder("reflect.Select", n) {
 			c := cases[i]
